@@ -226,6 +226,21 @@ def rule_X4(P, rep):
     rep.need(n >= 40, "only %d functions using lock primitives were analysed" % n)
 
 
+def borrow(rep, P, rule_fn, label, only=None, **kw):
+    """Evaluate a sibling property's rule and record its obligations under this property's `label`
+    (properties overlap: the same structural clause can be a necessary condition of several)."""
+    sub = type(rep)(rep.prop, rep.tier, rep.variant)
+    rule_fn(P, sub, **kw)
+    n = 0
+    for o in sub.obligations:
+        if only is not None and o["rule"] not in only:
+            continue
+        n += 1
+        rep.ob(label, "[%s] %s" % (o["rule"], o["instance"]), o["ok"], o["detail"], o["loc"],
+               site="%s/%s" % (label, o["instance"][:150]))
+    rep.need(n >= 1, "borrowed rule %s matched nothing" % label)
+
+
 def run_shared(P, rep, which=("X1", "X2", "X3")):
     if "X1" in which:
         rule_X1(P, rep)
